@@ -84,6 +84,9 @@ func runC15(r *Run) {
 		r.R.Unk(P+".anchor", "anchor resolution", "SidetreeTxn/AnchoredOperation/processTxnOperations", "-", "-", "not found")
 		return
 	}
+	// "a transaction that cannot be read or parsed contributes nothing": one whose files do not hold the number of
+	// operations its anchor string announces is such a transaction (rule shared with C14)
+	r.checkCountsAnchor(P)
 	// same-named fields
 	var common []string
 	ts, os := txnT.Underlying().(*types.Struct), opT.Underlying().(*types.Struct)
